@@ -6,7 +6,7 @@
 Require Import Pams.Prelude Pams.Match Pams.Market.
 Open Scope Z_scope.
 
-Inductive pyerr := PyValueError | PyNotImplementedError | PyAssertionError | PyException | PyAttributeError | PyTypeError | PyKeyError.
+Inductive pyerr := PyValueError | PyNotImplementedError | PyAssertionError | PyException | PyAttributeError | PyTypeError | PyKeyError | PyZeroDivisionError.
 Inductive pres (A : Type) := POk (a : A) | PErr (e : pyerr).
 Arguments POk {A}. Arguments PErr {A}.
 
